@@ -199,8 +199,11 @@ def jobs(tier):
 
 
 BOUNDS = dict(
-    quick='n_obs in 1..3, sensitivity width P in 0..2, 4 error models',
-    thorough='n_obs in {1..6, 8}, sensitivity width P in 0..4, 4 error models',
+    quick='n_obs in 1..3, sensitivity width P in 0..2, 4 error models; 6 '
+          'plans of 2-3 evaluations in a row on one instance with the '
+          'caller\'s containers updated in place (n_obs 1..2)',
+    thorough='n_obs in {1..6, 8}, sensitivity width P in 0..4, 4 error '
+             'models; the same 6 in-place plans',
     outside='longer vectors; floating-point rounding (reals are used); '
             'multiplicative models with non-positive sigma_tot')
 TRUSTED = ['z3 (QF_NRA with abstracted log/exp atoms + instantiated lemmas)',
